@@ -31,6 +31,7 @@ func hsConfigs(tier string) []hs.Config {
 		add(hs.Config{Comp: comps[0], Enc: encs[1], Schemes: schemes[4], TLSCapable: true, AuthSource: "tape", Tape: []string{"error"}, Register: "echo"})
 		add(hs.Config{Comp: comps[0], Enc: encs[0], Schemes: schemes[3], TLSCapable: true, AuthSource: "tape", Tape: []string{"authority"}, Register: "error"})
 		add(hs.Config{Comp: comps[0], Enc: encs[0], Schemes: schemes[0], TLSCapable: true, AuthSource: "tape", Tape: []string{"member+cut"}, Register: "echo"})
+		add(hs.Config{Comp: comps[0], Enc: encs[1], Schemes: schemes[0], TLSCapable: true, AuthSource: "tape", Tape: []string{"member"}, Register: "echo", TLSVia: "getconfig"})
 		return out
 	}
 	tapes := [][]string{{"member"}, {"roundtrip", "member"}, {"unknown"}, {"roundtrip", "roundtrip-norole", "authority"}, {"norole"}, {"error"}, {"roundtrip", "unknown"}, {"member+cut"}, {"roundtrip", "member+cut"}}
